@@ -97,13 +97,40 @@ def ob_i_queries(k, timeout):
         tier.find("x", substrMatchFlag=True)
         tier.getNonEntries()
         tier.timestamps
-        tier.getValuesInIntervals([(ts[0], 1)])
+        data = [(ts[1], 2), (ts[0], 1)]
+        tier.getValuesInIntervals(data)
+        if data != [(ts[1], 2), (ts[0], 1)]:
+            return "query changed the list it was given"
         list(tier)
         len(tier)
         tier == tier.new()
         return True if snap_tier(tier) == before else "query mutated the tier"
 
     return Ob("i-queries-k%d" % k, F(*names), body, pre, fmode="real", timeout=timeout, funcs=FUNCS[:1], bounds="k=%d" % k)
+
+
+def ob_p_queries(timeout):
+    names = ["hi", "t0", "t1", "x0", "x1", "x2"]
+
+    def pre(hi, t0, t1, x0, x1, x2):
+        return pts_wf_pre(0.0, hi, t0, t1) & (hi <= 512.0) & within(0.0, 512.0, x0, x1, x2)
+
+    def body(hi, t0, t1, x0, x1, x2):
+        tier = PointTier("p", [Point(t0, "x"), Point(t1, "y")], 0.0, hi)
+        data = [(x0, "a"), (x1, "b"), (x2, "c")]  # in any order
+        keep = list(data)
+        before = snap_tier(tier)
+        tier.getValuesAtPoints(data, False)
+        tier.getValuesAtPoints(data, True)
+        tier.validate("silence")
+        tier.find("x")
+        tier.timestamps
+        tier == tier.new()
+        if data != keep:
+            return "query changed the list it was given"
+        return True if snap_tier(tier) == before else "query mutated the tier"
+
+    return Ob("p-queries", F(*names), body, pre, fmode="real", timeout=timeout, funcs=FUNCS[:1], bounds="2 points, 3 samples in any order")
 
 
 def ob_p_nomut(opname, k, timeout):
@@ -334,6 +361,7 @@ def obligations(tier):
         for op in sorted(C05._ibinops()):
             obs.append(ob_i_bin_nomut(op, 1, 1, T))
         obs.append(ob_i_queries(2, 60))
+        obs.append(ob_p_queries(200))
         for op in sorted(C05._pops()):
             obs.append(ob_p_nomut(op, 2, 120))
         for op in sorted(TG_OPS):
@@ -351,6 +379,7 @@ def obligations(tier):
             for k, k2 in ((0, 0), (1, 1), (2, 1), (1, 2)):
                 obs.append(ob_i_bin_nomut(op, k, k2, 1200))
         obs.append(ob_i_queries(3, 300))
+        obs.append(ob_p_queries(900))
         for op in sorted(C05._pops()):
             for k in (0, 1, 2, 3):
                 obs.append(ob_p_nomut(op, k, 600))
